@@ -160,10 +160,17 @@ pub fn exec_call(root: &VfsPath, h: &mut Handle, c: &Call) -> String {
 pub const PATHS: [&str; 4] = ["/a", "/a/b", "/c", "/a/b/d"];
 
 /// full snapshot of the shared filesystem over the path universe
+/// additional snapshot paths of the program being explored (C17: every prefix of every requested path)
+pub static EXTRA_PATHS: Mutex<Vec<String>> = Mutex::new(Vec::new());
+
 pub fn snapshot(root: &VfsPath) -> String {
+    let extra: Vec<String> = EXTRA_PATHS.lock().unwrap().clone();
     PATHS
         .iter()
+        .map(|p| p.to_string())
+        .chain(extra.into_iter())
         .map(|p| {
+            let p = &p;
             let q = root.join(p).unwrap();
             let s = match guarded(|| q.metadata()) {
                 Ok(Ok(m)) if m.file_type == vfs::VfsFileType::Directory => "D".to_string(),
@@ -525,6 +532,9 @@ pub fn run(o: &Opts) -> Report {
             vec!["/a/b", "/c/x"],
             vec!["/a/b", "/a/b", "/a"],
             vec!["/a/b/d", "/a/b/e"],
+            // below a directory that (on the overlay) exists only in the lower layer
+            vec!["/c/x", "/c/y"],
+            vec!["/c/x/p", "/c/y/q"],
         ];
         let cap = if o.thorough() { 30000 } else { 600 };
         for backend in backends {
@@ -536,15 +546,31 @@ pub fn run(o: &Opts) -> Report {
                 let desc = format!("[{}] {}", backend, ps.iter().map(|p| format!("create_dir_all({})", p)).collect::<Vec<_>>().join(" || "));
                 rep.sample(desc.clone());
                 let mut bad: Option<(String, Vec<usize>)> = None;
+                // every prefix of every requested path, observed after EVERY explored schedule
+                let mut prefixes: Vec<String> = vec![];
+                for p in ps {
+                    let mut cur = String::new();
+                    for comp in p[1..].split('/') {
+                        cur.push('/');
+                        cur.push_str(comp);
+                        if !prefixes.contains(&cur) {
+                            prefixes.push(cur.clone());
+                        }
+                    }
+                }
+                *EXTRA_PATHS.lock().unwrap() = prefixes.clone();
                 let r = explore(&prog, &scratch, &mut n, cap, &mut rng, |out| {
                     rep.evaluations += 1;
                     rep.distinct_hash(&format!("{}|{:?}", desc, out.schedule));
                     if bad.is_none() {
                         if out.results.iter().flatten().any(|r| r != "ok") {
                             bad = Some((format!("a create_dir_all call did not succeed: {:?}", out.results), out.schedule.clone()));
+                        } else if let Some(p) = prefixes.iter().find(|p| !out.snap.split(' ').any(|t| t == format!("{}=D", p))) {
+                            bad = Some((format!("every call returned Ok but {} is not a directory afterwards ({})", p, out.snap), out.schedule.clone()));
                         }
                     }
                 });
+                EXTRA_PATHS.lock().unwrap().clear();
                 // every requested prefix is a directory afterwards: checked on a final controlled run
                 match r {
                     Err(e) => rep.fail(Fail { oracle: "prop".into(), signature: format!("{}:stall-or-deadlock", backend), what: format!("{}: {}", desc, e), script: vec![desc.clone()], impl_out: e, model_out: String::new() }),
